@@ -108,6 +108,9 @@ fn parse_version_filename(name: &str) -> Option<(Uuid, Uuid)> {
 
 const VERSION_RETENTION: Duration = Duration::from_secs(180 * 24 * 60 * 60);
 
+/// How often add_version tries to push a version whose parent is the latest version.
+const MAX_PUSH_ATTEMPTS: usize = 3;
+
 /// Thin wrapper around a git binary path that provides the command helpers used throughout
 /// this module. Defaults to `"git"` on PATH when constructed with `Git::new(None)`.
 struct Git {
@@ -648,36 +651,51 @@ impl Server for GitSyncServer {
             }
         }
 
-        // Create the new version and write it to file.
-        let version_id = Uuid::new_v4();
-        let version = Version {
-            version_id,
-            parent_version_id,
-            history_segment,
-        };
-        let version_path = self.add_version_by_parent_version_id(&version)?;
-        self.meta.latest_version = version_id;
-        let meta_path = self.write_meta()?;
+        // A push can also be rejected because of a commit that did not add a version (a snapshot
+        // or cleanup by another replica), or because this clone had not yet seen versions the
+        // given parent is based on. So after a rejection, try again for as long as the parent is
+        // still the latest version.
+        let mut attempts = 0;
+        let version_id = loop {
+            // Create the new version and write it to file.
+            let version_id = Uuid::new_v4();
+            let version = Version {
+                version_id,
+                parent_version_id,
+                history_segment: history_segment.clone(),
+            };
+            let version_path = self.add_version_by_parent_version_id(&version)?;
+            self.meta.latest_version = version_id;
+            let meta_path = self.write_meta()?;
 
-        // Commit and push, reverting if push fails.
-        self.git.stage_and_commit(
-            &self.local_path,
-            &[&version_path, &meta_path],
-            "add version",
-        )?;
+            // Commit and push, reverting if push fails.
+            self.git.stage_and_commit(
+                &self.local_path,
+                &[&version_path, &meta_path],
+                "add version",
+            )?;
 
-        if !self.push()? {
+            if self.push()? {
+                break version_id;
+            }
+
             // Push was rejected. Undo the commit. reset_to_remote will fetch, reset --hard,
             // and clean away the stray version file.
             self.git
                 .cmd(&self.local_path, &["reset", "HEAD~1", "--soft"])?;
             self.reset_to_remote()?;
             self.read_meta()?;
-            return Ok((
-                AddVersionResult::ExpectedParentVersion(self.meta.latest_version),
-                SnapshotUrgency::None,
-            ));
-        }
+            attempts += 1;
+            if self.meta.latest_version != parent_version_id {
+                return Ok((
+                    AddVersionResult::ExpectedParentVersion(self.meta.latest_version),
+                    SnapshotUrgency::None,
+                ));
+            }
+            if attempts >= MAX_PUSH_ATTEMPTS {
+                return Err(Error::Server("Couldn't push to remote.".into()));
+            }
+        };
 
         Ok((AddVersionResult::Ok(version_id), self.snapshot_urgency()))
     }
